@@ -61,6 +61,10 @@ fn gen_free_line(t: &mut Tape, sentinel: usize, mll: usize) -> Free {
     if starts_with_marker(&visible) {
         visible = format!("x {}", visible);
     }
+    // ` path | 12 ++--` is a diffstat line (rewritten under --relative-paths)
+    if visible.starts_with(' ') && visible.contains('|') {
+        visible = visible.replace('|', "/");
+    }
     // sprinkle escape sequences (balanced and unbalanced), also in front
     let mut s: Vec<u8> = Vec::new();
     let k = t.weighted(&[3, 3, 2, 1]);
@@ -151,8 +155,13 @@ fn gen_cfg(t: &mut Tape) -> Cfg {
         wide_only: false,
     };
     gen_structural(t, &mut c, &o);
-    // diffstat rewriting under --relative-paths is a documented rendering
+    // --relative-paths with a prefix to work from (diffstat-shaped lines are a construct delta
+    // renders in that mode; the free-line generator keeps clear of that shape)
     c.unset("relative-paths");
+    if t.chance(1, 4) {
+        c.flag("relative-paths");
+        c.env.git_prefix = Some(t.ps(&["src/", "a/b/", "docs/x/"]).to_string());
+    }
     if t.coin() {
         gen_tagged_styles(t, &mut c, &o);
     }
@@ -179,7 +188,7 @@ impl Prop for C04 {
         2500
     }
     fn rule(&self) -> String {
-        "cases = stream of free-text lines (arbitrary Unicode, metadata-like prefixes, embedded balanced/unbalanced SGR/OSC/CSI sequences, CR variants, invalid UTF-8, NUL), never starting with a construct-opening marker (judged with escape sequences removed), (i) alone, (ii) before the first construct, (iii) as commit metadata/message between a commit line and its diff, interleaved with rendered git sections; every line carries a unique sentinel; x all option sets except --relative-paths; neutral calling process. Oracle: (i) stdout == stdin after only the three permitted transforms computed independently (CR normalisation, lossy UTF-8, truncation); (ii)/(iii) every free line occurs exactly once in stdout, byte-identical, free lines in input order, and each section's sentinels lie between those of the neighbouring free blocks. Non-trivial = >=1 free line with an escape sequence / non-ASCII / CR / invalid byte and, for (ii)/(iii), >=1 rendered section; distinct by hash of (input, argv).".to_string()
+        "cases = stream of free-text lines (arbitrary Unicode, metadata-like prefixes, embedded balanced/unbalanced SGR/OSC/CSI sequences, CR variants, invalid UTF-8, NUL), never starting with a construct-opening marker (judged with escape sequences removed), (i) alone, (ii) before the first construct, (iii) as commit metadata/message between a commit line and its diff, interleaved with rendered git sections; every line carries a unique sentinel; x all option sets (incl. --relative-paths with GIT_PREFIX; free lines avoid the diffstat shape ` path | N +-`); neutral calling process. Oracle: (i) stdout == stdin after only the three permitted transforms computed independently (CR normalisation, lossy UTF-8, truncation); (ii)/(iii) every free line occurs exactly once in stdout, byte-identical, free lines in input order, and each section's sentinels lie between those of the neighbouring free blocks. Non-trivial = >=1 free line with an escape sequence / non-ASCII / CR / invalid byte and, for (ii)/(iii), >=1 rendered section; distinct by hash of (input, argv).".to_string()
     }
     fn assumptions(&self) -> Vec<String> {
         vec![
